@@ -16,7 +16,8 @@
 //! `replay`: executes every behaviour exported by TLC, compares the implementation's observable
 //! after each step with the state TLC computed and evaluates the C29 predicates on the
 //! implementation's own state.  `record`: a seeded random scheduler drives the real code and
-//! writes one event per step for `Trace_GossipGuard.tla`.
+//! writes one event per step for `Trace_GossipGuard.tla`.  `CancelStream` drops the future of a
+//! running `stream()` call (tokio task abort) where it is parked or waiting for the reply.
 use std::cell::RefCell;
 use std::collections::{BTreeMap, BTreeSet, HashMap, VecDeque};
 use std::sync::{Arc, Condvar, Mutex, MutexGuard};
@@ -257,7 +258,9 @@ struct World {
     returned: BTreeSet<String>,
     /// stream() calls that were seen at the point after `TopicDropGuard::new`
     made_guard: BTreeSet<String>,
-    tasks: Vec<tokio::task::JoinHandle<()>>,
+    /// stream() calls whose future was dropped half-way
+    cancelled: BTreeSet<String>,
+    tasks: HashMap<String, tokio::task::JoinHandle<()>>,
     held: BTreeMap<String, Held>,
     hst: BTreeMap<String, String>,
     drop_threads: HashMap<String, std::thread::JoinHandle<()>>,
@@ -320,7 +323,8 @@ impl World {
             started: BTreeSet::new(),
             returned: BTreeSet::new(),
             made_guard: BTreeSet::new(),
-            tasks: Vec::new(),
+            cancelled: BTreeSet::new(),
+            tasks: HashMap::new(),
             held: BTreeMap::new(),
             hst,
             drop_threads: HashMap::new(),
@@ -398,6 +402,8 @@ impl World {
         for p in &self.procs {
             let v = if !self.started.contains(p) {
                 "idle".to_string()
+            } else if self.cancelled.contains(p) {
+                "cancelled".to_string()
             } else if self.returned.contains(p) {
                 "returned".to_string()
             } else if let Some((point, _)) = st.parked.get(p) {
@@ -476,7 +482,7 @@ impl World {
     fn check_left(&mut self, obs: &Obs) {
         let quiescent = obs.mailbox.is_empty()
             && obs.live.is_empty()
-            && obs.pc.values().all(|v| v == "idle" || v == "returned")
+            && obs.pc.values().all(|v| v == "idle" || v == "returned" || v == "cancelled")
             && obs.hst.values().all(|v| v == "none" || v == "dropped");
         if quiescent && (obs.session != "none" || !obs.orphans.is_empty()) {
             self.property_failures.push((
@@ -532,7 +538,7 @@ impl World {
                     ctl.lock().finished.insert(name, r);
                     ctl.bump();
                 }));
-                self.tasks.push(task);
+                self.tasks.insert(p.to_string(), task);
                 self.wait_proc_settled(p, arrived_before).await?;
             }
             "CloneGuard" => {
@@ -563,8 +569,11 @@ impl World {
                         let (to_tx, to_rx) = mpsc::channel(128);
                         let (from_tx, _) = broadcast::channel(128);
                         self.keep.push(to_rx);
+                        // (a caller that is gone does not get the reply, manager.rs:263)
                         let _ = reply.send((to_tx, from_tx));
-                        self.wait_proc_settled(&by, u64::MAX).await?;
+                        if !self.cancelled.contains(&by) {
+                            self.wait_proc_settled(&by, u64::MAX).await?;
+                        }
                     }
                     (Some(Mail::Unsubscribe), Some(_)) => {
                         // manager.rs:265-288
@@ -572,6 +581,25 @@ impl World {
                     }
                     _ => return Err("mailbox of the manager is empty".into()),
                 }
+            }
+            "CancelStream" => {
+                // the caller drops the future: abort the task wherever it is parked or waiting
+                let Some(task) = self.tasks.remove(p) else {
+                    return Err(format!("stream() of {p} is not running"));
+                };
+                if task.is_finished() {
+                    return Err(format!("stream() of {p} has already returned"));
+                }
+                // the release handle is kept until the future is gone (dropping it would wake
+                // the parked task)
+                let parked = self.ctl.lock().parked.remove(p);
+                task.abort();
+                let _ = task.await;
+                drop(parked);
+                if self.ctl.lock().finished.contains_key(p) {
+                    return Err(format!("stream() of {p} returned before it could be cancelled"));
+                }
+                self.cancelled.insert(p.to_string());
             }
             "CloneHandle" => {
                 let Some(Held::Handle(h)) = self.held.get(p) else {
@@ -670,12 +698,12 @@ impl World {
                     let _ = reply.send((to_tx, from_tx));
                 }
             }
-            if self.tasks.iter().all(|t| t.is_finished()) {
+            if self.tasks.values().all(|t| t.is_finished()) {
                 break;
             }
             tokio::time::sleep(Duration::from_millis(1)).await;
         }
-        for t in self.tasks.drain(..) {
+        for (_, t) in self.tasks.drain() {
             t.abort();
             let _ = t.await;
         }
@@ -886,8 +914,9 @@ struct Move {
     k: String,
 }
 
-fn enabled_moves(w: &mut World, split_drop: bool) -> Vec<Move> {
+fn enabled_moves(w: &mut World, split_drop: bool, max_cancels: usize) -> Vec<Move> {
     let obs = w.observe();
+    let cancels_left = max_cancels.saturating_sub(w.cancelled.len());
     let mut moves = Vec::new();
     let reader_parked = obs.pc.values().any(|v| v == "atA");
     let write_locked = obs.senders.is_err();
@@ -901,6 +930,9 @@ fn enabled_moves(w: &mut World, split_drop: bool) -> Vec<Move> {
             "atB" => moves.push(m("CallSubscribe")),
             "atC" if !reader_parked => moves.push(m("InsertSenders")),
             _ => {}
+        }
+        if cancels_left > 0 && matches!(pc.as_str(), "atA" | "atW" | "atB" | "waitReply" | "atC") {
+            moves.push(m("CancelStream"));
         }
     }
     if !obs.mailbox.is_empty() {
@@ -932,6 +964,7 @@ fn record(args: &Args) {
     let n = if args.n == 0 { 50 } else { args.n };
     let nprocs = args.extra_usize("procs", 3);
     let nclones = args.extra_usize("clones", 2);
+    let max_cancels = args.extra_usize("cancels", 3);
     let split_drop = args.extra.get("split_drop").map(|v| v == "true").unwrap_or(false);
     let rt = runtime();
     let ctl = new_ctl();
@@ -947,8 +980,15 @@ fn record(args: &Args) {
             let mut stuck: Option<String> = None;
             // some runs keep a handle alive for a long time, others drop eagerly
             let drop_weight = rng.range(1, 4);
+            // most runs cancel at most one call
+            let max_cancels = match rng.below(4) {
+                0 => 0,
+                1 | 2 => 1,
+                _ => max_cancels,
+            }
+            .min(max_cancels);
             for _ in 0..200 {
-                let moves = enabled_moves(&mut w, split_drop);
+                let moves = enabled_moves(&mut w, split_drop, max_cancels);
                 if moves.is_empty() {
                     break;
                 }
@@ -956,7 +996,7 @@ fn record(args: &Args) {
                     .iter()
                     .map(|m| match m.a {
                         "FetchSub" => drop_weight,
-                        "CloneHandle" => 1,
+                        "CloneHandle" | "CancelStream" => 1,
                         _ => 3,
                     })
                     .collect();
@@ -985,8 +1025,10 @@ fn record(args: &Args) {
                 ev["k"] = json!(m.k);
                 tw.event(ev);
             }
-            let obs = w.observe();
-            w.check_left(&obs);
+            if stuck.is_none() {
+                let obs = w.observe();
+                w.check_left(&obs);
+            }
             out.mark_distinct(key.join(">"));
             let failures = std::mem::take(&mut w.property_failures);
             w.shutdown().await;
